@@ -415,7 +415,9 @@ def i_pointwise(F, res):
         # delegation: Sub = Add(self, Neg(other))
         calls = [(bi, t) for bi, t in mir.calls(f)]
         deleg = [t for bi, t in calls if (t.get("resolved") or "").startswith("<%s as std::ops::" % CA)]
-        bodies = [f] + [F.fns[st["rv"]["closure"]] for _, _, st in mir.stmts(f) if st["rv"]["k"] == "agg" and st["rv"].get("closure") in F.fns]
+        # closures created here whose body was not already inlined at its call site
+        inl = {b.get("inl") for b in f["blocks"]}
+        bodies = [f] + [F.fns[st["rv"]["closure"]] for _, _, st in mir.stmts(f) if st["rv"]["k"] == "agg" and st["rv"].get("closure") in F.fns and st["rv"]["closure"] not in inl]
         ar = []
         for b in bodies:
             for bi, si, st in mir.stmts(b):
